@@ -351,13 +351,20 @@ def set_parents(fn):
 
 
 def normalise(fn, world=None, modname=None, cls=None, primitives=(),
-              inline=True, aliases=True):
+              inline=True, aliases=True, detable=True):
     info = {"inlined": []}
     if inline and world is not None:
         inl = Inliner(world, modname, cls, primitives)
         fn = inl.expand(fn)
         info["inlined"] = inl.inlined
     parent = getattr(fn, "_parent", None)
+    if detable:
+        from .unroll import detable as _detable
+        fn2, dinfo = _detable(fn)
+        if any(dinfo.values()):
+            fn = fn2
+            info["detabled"] = dinfo
+            info["inlined"] = info["inlined"] + ["<detable>"]
     if any(isinstance(n, (ast.With, ast.AsyncWith)) for n in ast.walk(fn)) \
             and "nullcontext" in ast.unparse(fn):
         if not info["inlined"]:
